@@ -36,7 +36,7 @@ ASSUMPTIONS = [
     "reference interpreter used as cross-check only (disagreements are counted, reported under C05)",
 ]
 FLOORS = {"hits_compared": (400, 8000), "steps": (1500, 30000), "histories_with_hit_and_change": (80, 1500), "hostile_steps": (1200, 24000), "scalar_under_preset_section_steps": (14, 14), "templated_container_steps": (150, 150), "dataset_class_consumer_steps": (700, 14000)}
-COVER = {"kinds_under_cache_with_hits": ["opt", "switch", "case", "coalesce", "bind", "map", "tmpl", "with", "apply", "list", "ds"]}
+COVER = {"kinds_under_cache_with_hits": ["opt", "switch", "case", "coalesce", "bind", "map", "tmpl", "with", "apply", "list", "ds", "dc"]}
 SHARDS_QUICK = 4
 # domains only in the directed families: an out-of-domain value inside a bind/case dispatch of a skipped
 # alternative is the recorded finding 'fallback-unexplainable-present-key' (see DESIGN.md)
